@@ -38,11 +38,11 @@ type SimNet struct {
 	Fired  map[string]int
 	// Park, if set, is called before the request is handed to the handler and before the response is
 	// handed back (the two in-flight moments), with a canonical key; the scheduler decides when it returns.
-	Park func(key string)
+	Park    func(key string)
 	Default string // fault applied to every request with no explicit one (e.g. "drop" for a dead network)
 	// FaultFn, if set, decides the fault of a request from its class and occurrence number only, so that the
 	// decision does not depend on the order in which concurrent goroutines reach the network.
-	FaultFn func(class string, occ int) string
+	FaultFn   func(class string, occ int) string
 	OnRequest func(r *NetReq)
 }
 
